@@ -15,11 +15,11 @@ CONSTANTS
   Par <- ParDef
   Num <- NumDef
   Readers <- R2
-  StreamC <- Stream5
+  StreamC <- Stream4
   Order <- OrderAsIs
   CheckAccepts = TRUE
   SimCommits = FALSE
-  NextTwoLoads = FALSE
+  NextTwoLoads = TRUE
 SYMMETRY Sym
-INVARIANT NeverObservedMidImport
+INVARIANT NextIsOneSnapshot
 CHECK_DEADLOCK FALSE
